@@ -34,6 +34,11 @@ CHECKS = {
    text="Final states of seeded histories (all selector kinds incl. complex selectors with mixed and range-compressed sub-selectors, end-aligned and relative offsets, gaps, ids without ';') are saved as STAM CSV and loaded again; resources and texts, keys, data ids and value text, annotation ids, data references, targets (kinds, referenced items, absolute ranges, selected text) and every reverse lookup must be equal. Held on the stores observed; the two temp-id findings are recorded.",
    note="Trusted: obs.rs in value-as-text mode. On stores with gaps, differences in *references* are attributed to the recorded temporary-id finding; stores without gaps are compared in full.",
    ref="5/C15"),
+ "C06": dict(
+   technique="runtime oracle monitor: brute-force differential - every related_text entry point vs a scan of all known selections with the public test(), on seeded geometries, for all 92 operator x modifier variants",
+   text="Seeded texts with whitespace runs and 4-14 known selections (nested, crossing, adjacent, zero-width, touching both ends, both halves); references are single selections, their annotations and sets of 2-3 selections; each of the 92 operator/modifier variants is searched through ResultTextSelection, ResultItem<Annotation>, ResultTextSelectionSet and ResultItem<TextResource> related_text and compared as a multiset with the brute-force answer. Held on the geometries observed.",
+   note="Trusted: the library's own test()/test_set() as oracle (judged by C13). References are bound selections. RELATION constraints in queries are exercised in C08.",
+   ref="5/C06"),
  "C10": dict(
    technique="runtime monitoring: exactly-once oracle over the event log (shadow model predicts which data handle every request must map to), dedup invariants on the live sets, index-vs-scan differential for every data search route, and an independent reference implementation of the documented DataOperator semantics on a value x operator cross product",
    text="Seeded histories of data insertions through datasets, insert_data and annotations (with/without ids, repeated key/value pairs) and removals of data and keys; after every operation the returned handles are compared with the model's exactly-once prediction, the live sets are scanned for duplicate id-less (key,value) items and duplicate keys, and key.data()/find_data/test_data/data_by_value are compared with a full scan; DataValue::test is compared with a reference written from the doc comments over 25 values x ~100 operators incl. nested Not/And/Or. Held on what was observed.",
